@@ -30,7 +30,7 @@ def is_doubled(t, pt):
 
 def run(ctx, rep):
     prog = ctx.program("default")
-    rep.configs.append("default")
+    rep.configs.append(getattr(ctx, "alias", "default"))
     circle(prog, rep)
     ellipse(prog, rep)
     sector(prog, rep)
